@@ -127,10 +127,24 @@ impl Scheduler for SimScheduler {
             }
             rec.choices.push(chosen as u32);
         } else if self.replay.is_some() && self.prefer_current_after_replay {
-            chosen = match cur {
-                Some(c) if real.contains(&c) => c,
+            // "keep the running thread" — but still fair: a runnable thread that has been passed over
+            // FAIR_BOUND times runs now (otherwise a spinning search would starve the input thread)
+            let starved = real.iter().copied().find(|i| self.passed_over.get(*i).copied().unwrap_or(0) >= FAIR_BOUND);
+            chosen = match (starved, cur) {
+                (Some(s), _) => s,
+                (None, Some(c)) if real.contains(&c) => c,
                 _ => *real.first().unwrap_or(&ids[0].0),
             };
+            for &i in &real {
+                if self.passed_over.len() <= i {
+                    self.passed_over.resize(i + 1, 0);
+                }
+                if i == chosen {
+                    self.passed_over[i] = 0;
+                } else {
+                    self.passed_over[i] += 1;
+                }
+            }
             rec.choices.push(chosen as u32);
         } else {
             drop(rec);
